@@ -103,6 +103,8 @@ def apply(it, fn, args, dest_ty, term, caller, depth):
                 return Int(w, signed, val=0)
             if name.startswith("from_") and tr.endswith("FromPrimitive"):
                 return checked_conv(it, args[0], w, signed)
+            if name == "from" and tr.endswith("NumCast") and len(args) == 1 and isinstance(args[0], Int):
+                return checked_conv(it, args[0], w, signed)
             if name.startswith("to_") and tr.endswith("ToPrimitive"):
                 tgt = {"to_u8": 8, "to_u16": 16, "to_u32": 32, "to_u64": 64, "to_u128": 128, "to_usize": 64}.get(name)
                 if tgt:
